@@ -37,8 +37,6 @@ import (
 	"verifharness/h"
 )
 
-var c09SlashStarRe = regexp.MustCompile(`/[ \t\r\n\f]+\*`)
-
 type c09Doc struct {
 	mt   string
 	name string
@@ -306,11 +304,7 @@ func init() {
 				}
 			case "text/css":
 				if c09CSSValid(d.data) && !c09CSSValid(o) {
-					if c09SlashStarRe.Match(d.data) && bytes.Contains(o, []byte("/*")) {
-						c.R.ExcludedKnown++ // K-C09-2: `/ *` loses its whitespace and becomes a comment opener
-					} else {
-						report("output has unbalanced blocks/strings/comments although the input is balanced", "")
-					}
+					report("output has unbalanced blocks/strings/comments although the input is balanced", "")
 				}
 			case "text/html":
 				// only for unmutated documents: a document truncated inside a tag has no well-defined tree to compare with
